@@ -195,6 +195,17 @@ func c03Variants() []c03Case {
 			return fix.IBTPTx(fix.KR, pw.w.N.Next(fix.KR), &c, fix.HubProof(&req, B, B, []string{"hubval-1", "hubval-2"})), false, true
 		})
 	}
+	// the proof bytes of a cross-hub IBTP must hash to the hash the signed transaction commits to
+	add("hub/2-registered-but-proof-hash-mismatch", nil, func(pw *preWorld) (pb.Transaction, bool, bool) {
+		c := *hubReq
+		c.Proof = sha([]byte("another proof"))
+		return fix.IBTPTx(fix.KR, pw.w.N.Next(fix.KR), &c, fix.HubProof(hubReq, B, B, []string{"hubval-1", "hubval-2"})), false, true
+	})
+	add("hub/2-registered-but-empty-proof-hash", nil, func(pw *preWorld) (pb.Transaction, bool, bool) {
+		c := *hubReq
+		c.Proof = []byte{}
+		return fix.IBTPTx(fix.KR, pw.w.N.Next(fix.KR), &c, fix.HubProof(hubReq, B, B, []string{"hubval-1", "hubval-2"})), false, true
+	})
 	otherType := *hubReq
 	otherType.Type = pb.IBTP_RECEIPT_SUCCESS
 	hub("2-registered-signed-same-ibtp-of-another-type", []string{"hubval-1", "hubval-2"}, B, B, &otherType, false)
